@@ -351,7 +351,7 @@ Definition a_getfirst (d : list (K * aval)) (k : K) : tres :=
   match lookup k d with
   | None => TNone
   | Some (AS s) => TStr s
-  | Some (AL []) => TRaise "IndexError"
+  | Some (AL []) => TNone            (* func(value[0]) if value else default *)
   | Some (AL (x :: _)) => TStr x
   end.
 Definition a_getlist (d : list (K * aval)) (k : K) : tres :=
@@ -367,9 +367,10 @@ Definition e_getfirst (k : K) : tres := TNone.
 Definition e_getlist (k : K) : tres := TList [].
 
 (* FieldStorage: root.list = [FieldStorage(name, value), ...] *)
-(* FieldStorage.value of a leaf made by read_urlencoded: [if self._value:
-   return it], no file, empty list -> None.  A blank value is None. *)
-Definition fval (v : K) : option K := if is_nil v then None else Some v.
+(* FieldStorage.value of a leaf made by read_urlencoded: [if self._value is
+   not None: return self._value]; the value is always a str there, so a kept
+   blank value is ''.  (option: what .value may answer in general) *)
+Definition fval (v : K) : option K := Some v.
 Definition f_found (fs : list (K * K)) (k : K) : list (K * K) :=
   filter (fun f => lz_eqb (fst f) k) fs.
 Definition f_contains (fs : list (K * K)) (k : K) : bool :=
@@ -434,7 +435,7 @@ Definition jd_getvalue (d : list (K * J)) (k : K) : jres :=
 Definition jd_getfirst (d : list (K * J)) (k : K) : jres :=
   match lookup k d with
   | None => JRNone
-  | Some (JArr []) => JRRaise "IndexError"       (* value[0] *)
+  | Some (JArr []) => JRNone      (* func(value[0]) if value else default *)
   | Some (JArr (x :: _)) => JRVal x
   | Some j => JRVal j
   end.
